@@ -103,6 +103,10 @@ pub fn classify(line: &str) -> Class {
     if line.starts_with(is_ws) || line.ends_with(is_ws) {
         // blanks around a command: not stated anywhere
         let t = line.trim_matches(is_ws);
+        if t.is_empty() {
+            // a submitted line is rejected or executed as a documented command; blanks are no command
+            return MustReject("only blanks");
+        }
         return match classify(t) {
             MustReject(r) if !t.is_empty() => MustReject(r),
             MustAccept(e) | Either(e, _) => Either(e, "leading or trailing blanks"),
